@@ -33,7 +33,17 @@ impl Clock {
 }
 /// the part of OpSet / Automerge the functions under contract touch
 pub struct OpSet { pub actors: Vec<ActorId> }
-pub struct Automerge { pub ops: OpSet }
+/// `own`: the document's actor (automerge.rs `enum Actor`, contracts below): either a cached table index or the id itself
+pub struct Automerge { pub ops: OpSet, pub own: Ghost<Option<usize>>, pub own_id: Ghost<ActorId> }
+impl Automerge {
+    /// read-only accessors of the real Automerge (ASSUMED; their bodies match on `self.actor`): the own actor id, and its
+    /// table index IF it is cached -- an uncached (`Unused`) actor gives None even when the id is in the table
+    #[verifier::external_body]
+    pub fn get_actor(&self) -> (r: &ActorId) ensures *r == self.own_id@ { unimplemented!() }
+    #[verifier::external_body]
+    pub fn get_actor_index(&self) -> (r: Option<usize>)
+        ensures r == self.own@, r matches Some(i) ==> i < self.ops.actors.len() && self.ops.actors[i as int] == self.own_id@ { unimplemented!() }
+}
 
 impl OpSet {
     /// ASSUMED contract of `lookup_actor` (a `binary_search` over the actor table, which rests on
@@ -212,6 +222,8 @@ impl Automerge {
         requires table_fits(self),
         ensures r matches Ok(o) ==> o.spec_counter() == cursor.ctr && o.spec_actor() < self.ops.actors.len() && self.ops.actors[o.spec_actor() as int] == cursor.actor,
             (forall|i: int| 0 <= i < self.ops.actors.len() ==> self.ops.actors[i] != cursor.actor) ==> r is Err,
+            // C19: a cursor of a known actor with an in-range counter DOES resolve when no clock restricts the view
+            ((exists|i: int| 0 <= i < self.ops.actors.len() && self.ops.actors[i] == cursor.actor) && cursor.ctr <= u32::MAX && clock is None) ==> r is Ok,
 //@ end
 }
 
